@@ -716,6 +716,18 @@ class Interp:
             return
         a, b = tag[1], tag[2]
         sa, sb = self.slot_key_side(a), self.slot_key_side(b)
+        if sa is not None and sb is not None and sa[0] != sb[0]:
+            # keys of two containers are compared: the container being scanned is the one whose
+            # slots were sliced most recently; the other side is the probe
+            scanned = None
+            for e in reversed(st.events):
+                if e[0] == 'slice' and e[1] in (sa[0], sb[0]):
+                    scanned = e[1]
+                    break
+            if scanned == sa[0]:
+                sb = None
+            elif scanned == sb[0]:
+                sa = None
         if (sa is None) == (sb is None):
             return
         (mid, idx), other = (sa, self.strip_borrow(b)) if sa is not None else (sb, self.strip_borrow(a))
@@ -833,6 +845,23 @@ class Interp:
         """slot idx joins the live prefix holding key `ktag`; `scanned` = key tag of a completed
         full-prefix miss (or None)"""
         ok = scanned is not None and (scanned == ('<empty>',) or tag_eq(st.zone, scanned, ktag))
+        if not ok:
+            # element i of another container cloned into slot i of this one: the keys are as distinct
+            # as those of the source (a positional copy needs no scan)
+            srcs = []
+
+            def walk(t):
+                if isinstance(t, tuple):
+                    if len(t) == 4 and t[0] in ('pair', 'slot') and isinstance(t[1], str):
+                        srcs.append(t)
+                    else:
+                        for x in t:
+                            walk(x)
+            walk(ktag)
+            if len(srcs) == 1 and srcs[0][1] != mid and 'Clone::clone' in str(ktag) \
+                    and st.zone.entails_eq(srcs[0][2], idx) and slots.live(st, srcs[0][1], srcs[0][2]) is True:
+                ok = True
+                scanned = ('<positional copy of %s>' % srcs[0][1],)
         st.log('append', mid, idx, ktag, ok, scanned)
         self.oblig('APPEND-AFTER-MISS', ok, 'append',
                    'slot %s joins the live prefix of %s holding key %r, but no completed scan of the whole '
